@@ -46,9 +46,15 @@ func (ex *Exec) instrModKeys(fr *frame, in ssa.Instruction, keys map[string]bool
 	case *ssa.Call:
 		ex.callModKeys(fr, &in.Call, keys, seen)
 	case *ssa.Defer:
-		ex.callModKeys(fr, &in.Call, keys, seen)
+		// effects happen at RunDefers
 	case *ssa.RunDefers:
-		keys["*defer"] = true
+		for _, b := range in.Parent().Blocks {
+			for _, x := range b.Instrs {
+				if d, ok := x.(*ssa.Defer); ok {
+					ex.callModKeys(fr, &d.Call, keys, seen)
+				}
+			}
+		}
 	}
 	_ = u
 }
@@ -202,6 +208,10 @@ func (ex *Exec) contractModKeys(fc *FuncContract, callee *ssa.Function, sig *typ
 		}
 	}
 	for _, it := range fc.Modifies {
+		if strings.TrimSpace(it) == "newobjects" {
+			keys["*new"] = true
+			continue
+		}
 		ks, _ := ex.modItem(it, env)
 		for _, k := range ks {
 			keys[k] = true
